@@ -38,7 +38,7 @@ G_OAUTH_HOST = "accounts.google.com"
 
 FAULT_KINDS = {
     "http_4xx_json", "http_5xx_json", "http_5xx_text", "malformed_json", "missing_content_type",
-    "reset_before_body", "reset_inside_body", "corrupt", "wrong_checksum", "delay", "async",
+    "reset_before_body", "reset_inside_body", "corrupt", "wrong_checksum", "omit_checksum", "delay", "async",
 }
 
 DEFAULT_CONFIG = {
@@ -1152,6 +1152,8 @@ def dbx_session_finish(ctx):
             del meta[".tag"]
             if ctx.fault_kind() == "wrong_checksum":
                 meta["content_hash"] = spoil_hex(meta["content_hash"])
+            if ctx.fault_kind() == "omit_checksum":
+                meta.pop("content_hash", None)
             return Reply(200, meta)
     finally:
         _unlink(tail)
@@ -1199,10 +1201,12 @@ def ya_resource(emu, path, e, with_md5_fault=False):
     }
     if e["type"] == "file":
         md5 = emu.obj_meta(e)["md5"]
-        if with_md5_fault:
+        if with_md5_fault is True:
             md5 = spoil_hex(md5)
         out.update({"size": e["size"], "md5": md5, "sha256": e["sha256"], "mime_type": "application/octet-stream",
                     "media_type": "encoded"})
+        if with_md5_fault == "omit":
+            del out["md5"]
     return out
 
 
@@ -1249,7 +1253,7 @@ def ya_get_resource(ctx):
             raise ValueError
     except ValueError:
         return ya_error(400, "FieldValidationError", "Error validating field \"offset\"/\"limit\".")
-    wrong = ctx.fault_kind() == "wrong_checksum"
+    wrong = True if ctx.fault_kind() == "wrong_checksum" else ("omit" if ctx.fault_kind() == "omit_checksum" else False)
     with emu.lock:
         table = emu.paths["yandex"]
         e = emu.tree_get(table, path)
@@ -1505,7 +1509,9 @@ def g_resource(emu, o, wrong=False):
            "parents": list(o["parents"]), "trashed": False}
     if o["type"] == "file":
         md5 = emu.obj_meta(o)["md5"]
-        out.update({"size": str(o["size"]), "md5Checksum": spoil_hex(md5) if wrong else md5, "sha256Checksum": o["sha256"]})
+        out.update({"size": str(o["size"]), "md5Checksum": spoil_hex(md5) if wrong is True else md5, "sha256Checksum": o["sha256"]})
+        if wrong == "omit":
+            del out["md5Checksum"]
     return out
 
 
@@ -1527,7 +1533,7 @@ def g_get(ctx, fid):
         o = g_find(emu, fid)
         if o is None:
             return g_not_found(fid)
-        res = g_resource(emu, o, ctx.fault_kind() == "wrong_checksum")
+        res = g_resource(emu, o, True if ctx.fault_kind() == "wrong_checksum" else ("omit" if ctx.fault_kind() == "omit_checksum" else False))
     return Reply(200, g_project(res, ctx.q.get("fields")))
 
 
